@@ -287,6 +287,57 @@ def random_history(rng, pool, length, ttl_choices, epoch=0, mix=False):
     return ops
 
 
+def expiry_histories(rng, pool, count):
+    """directed at the expiry bookkeeping: three to five vessels whose insertion order is not their time order,
+    then one disturbance (the oldest / the newest / any track removed by hand, or the oldest refreshed, or a late
+    report of a new vessel), then the clock visits every moment at which some track's age is one short of, equal
+    to and one beyond the TTL, with a cleanup (or an update of another vessel) at each"""
+    out = []
+    mmsis = sorted(pool)
+    for _ in range(count):
+        ttl = rng.choice([3, 5, 10])
+        k = rng.randint(3, min(5, len(mmsis)))
+        vs = rng.sample(mmsis, k)
+        base = rng.choice([0, 50, 1673259290])
+        stamps = rng.sample(range(base + 20, base + 20 + 3 * ttl), k)
+        ordered = rng.random() < 0.3
+        if ordered:
+            stamps.sort()
+        ops = ['t:%d' % (base + 20)]
+        lu = {}
+        for m, ts in zip(vs, stamps):
+            ops.append('u:%s:%d' % (rng.choice(pool[m]).hex(), ts))
+            lu[m] = ts
+        oldest = min(lu, key=lu.get)
+        newest = max(lu, key=lu.get)
+        d = rng.choice(['pop-oldest', 'pop-newest', 'pop-any', 'refresh-oldest', 'late-new', 'none', 'pop-oldest'])
+        if d == 'pop-oldest':
+            ops.append('p:%d' % oldest); lu.pop(oldest)
+        elif d == 'pop-newest':
+            ops.append('p:%d' % newest); lu.pop(newest)
+        elif d == 'pop-any':
+            m = rng.choice(sorted(lu)); ops.append('p:%d' % m); lu.pop(m)
+        elif d == 'refresh-oldest' and not ordered:
+            ts = rng.randint(lu[oldest], max(lu.values()))
+            ops.append('u:%s:%d' % (rng.choice(pool[oldest]).hex(), ts)); lu[oldest] = ts
+        elif d == 'late-new' and not ordered:
+            rest = [m for m in mmsis if m not in lu]
+            if rest:
+                m = rng.choice(rest)
+                ts = min(lu.values()) + rng.randint(-2, 2)
+                ops.append('u:%s:%d' % (rng.choice(pool[m]).hex(), ts)); lu[m] = ts
+        if rng.random() < 0.3:
+            ops.append('n:%d' % rng.randint(1, 3))
+        times = sorted({t + ttl + e for t in lu.values() for e in (-1, 0, 1)})
+        for t in times:
+            if t < base + 20:
+                continue
+            ops.append('t:%d' % t)
+            ops.append('c' if rng.random() < 0.8 else 'n:2')
+        out.append((ordered, ttl, ops))
+    return out
+
+
 def run_tracker_checks(ctx, pid):
     rng = ctx.rng('tracker')
     attrs_cache = {}
@@ -318,6 +369,9 @@ def run_tracker_checks(ctx, pid):
                              ['N', '2', '5', '10'], epoch=epoch, mix=(epoch == 1673259290 and rng.random() < 0.5))
         ops += ['n:%d' % k for k in (0, 1, 2, 3, 7)]
         lines.append('tracker %d %s %s' % (ordered, 'N' if ttl is None else ttl, ' '.join(ops)))
+        meta.append((ordered, ttl, ops))
+    for ordered, ttl, ops in expiry_histories(rng, pool2, 300 if ctx.tier == 'quick' else 20000):
+        lines.append('tracker %d %s %s' % (ordered, ttl, ' '.join(ops)))
         meta.append((ordered, ttl, ops))
     outs = ctx.corr(lines, impl.step, 'tracker',
                     nontrivial=lambda l, o: 'u+[' in o)
